@@ -672,17 +672,54 @@ def long_stage(ctx, kb, ctxs, tlds, kw, dist, P):
 
 
 RECURSION_PROBE = "1qaz" * 1100
+PROBE_SECONDS = 30
+
+
+class TooSlow(BaseException):
+    """not an Exception: passes through the implementation's and the harness's `except Exception`"""
+
+
+def time_limited(seconds, f):
+    """f() under a wall-clock limit (SIGALRM; the driver's own watchdog alarm is put back afterwards) -> (result, timed out)"""
+    import signal
+
+    def on_alarm(signum, frame):
+        raise TooSlow()
+    t0 = time.time()
+    old = signal.signal(signal.SIGALRM, on_alarm)
+    left = signal.alarm(seconds)
+    try:
+        return f(), False
+    except TooSlow:
+        return None, True
+    finally:
+        signal.alarm(0)
+        signal.signal(signal.SIGALRM, old)
+        if left:
+            signal.alarm(max(1, left - int(time.time() - t0)))
 
 
 def recursion_probe(ctx, kb, ctxs, tlds, kw, dist):
-    """One password of 1100 keyboard walks (4400 characters), through parse() and through a whole trainer run."""
+    """One password of 1100 keyboard walks (4400 characters), through parse() and through a whole trainer run.  Each of
+    the two under a limit of PROBE_SECONDS (measured: 0.05 s / 0.4 s): an implementation that needs longer is noted,
+    the property does not speak about time."""
     vio = []
     mw = make_detector([], [], kw)
-    secs, counters, raised = run_impl(mw, [RECURSION_PROBE])
+    got, slow = time_limited(PROBE_SECONDS, lambda: run_impl(mw, [RECURSION_PROBE]))
+    if slow:
+        dist["recursion_probe_parse_timed_out"] += 1
+        ctx.note("C05: parse() of %d keyboard walks did not return within %d s" % (len(RECURSION_PROBE) // 4, PROBE_SECONDS))
+        return vio
+    secs, counters, raised = got
     vio += oracle(kb, ctxs, tlds, kw, [], [], {}, mw, [RECURSION_PROBE], secs, counters, raised)
     dist["recursion_probe_parse_raised"] += bool(raised)
     rp = {"pre": [], "hist": ["password1"] * 3 + [RECURSION_PROBE] + ["monkey12", "password1"]}
-    rec = run_trainer_case(common.scratch(), "rp", rp)
+    rec, slow = time_limited(PROBE_SECONDS, lambda: run_trainer_case(common.scratch(), "rp", rp))
+    if slow:
+        dist["recursion_probe_trainer_timed_out"] += 1
+        ctx.note("C05: run_trainer on a list holding a line of %d keyboard walks did not return within %d s"
+                 % (len(RECURSION_PROBE) // 4, PROBE_SECONDS))
+        return vio
     v, usable = judge_trainer_run(rec, rp, kb, ctxs, tlds, kw, reject_reason())
     vio += v
     dist["recursion_probe_trainer_completed"] += bool(usable)
